@@ -383,6 +383,35 @@ static int do_mkcorpus(const char *dir)
     return 0;
 }
 
+/* ===================================================================== h5attr
+   Replace attribute ATTR of group GROUP by a fixed-length string attribute of LEN characters ('A' ... , NUL
+   terminated: type size LEN + 1) -- raw HDF5, nothing of the library under test */
+#include "hdf5.h"
+static int do_h5attr(const char *file, const char *group, const char *attr, int len)
+{
+    hid_t f, g, t, sp, a;
+    char *val;
+    int ok = 0;
+    f = H5Fopen(file, H5F_ACC_RDWR, H5P_DEFAULT);
+    if (f < 0) { out("h5attr open failed"); return 2; }
+    g = H5Gopen2(f, group, H5P_DEFAULT);
+    if (g >= 0) {
+        if (H5Aexists(g, attr) > 0) H5Adelete(g, attr);
+        t = H5Tcopy(H5T_C_S1); H5Tset_size(t, (size_t)len + 1);
+        sp = H5Screate(H5S_SCALAR);
+        a = H5Acreate2(g, attr, t, sp, H5P_DEFAULT, H5P_DEFAULT);
+        val = (char *)calloc((size_t)len + 1, 1);
+        memset(val, 'A', (size_t)len);
+        if (a >= 0 && val && H5Awrite(a, t, val) >= 0) ok = 1;
+        free(val);
+        if (a >= 0) H5Aclose(a);
+        H5Sclose(sp); H5Tclose(t); H5Gclose(g);
+    }
+    H5Fclose(f);
+    out(ok ? "h5attr done" : "h5attr failed");
+    return ok ? 0 : 2;
+}
+
 /* ===================================================================== check */
 static int do_check(const char *file)
 {
@@ -514,6 +543,20 @@ static void walk(double id, int depth)
                 else {
                     if ((rc = cgio_read_all_data_type(w_cg, id, dt, buf))) EC("cgio_read_all_data_type", rc);
                     else sprintf(datasum, "%u", bytesum(buf, (size_t)nb));
+                    {   /* the same values through the block reader and the strided reader, into buffers of the same size */
+                        cgsize_t one[CGIO_MAX_DIMENSIONS], count = (cgsize_t)(nb / esz);
+                        void *b2 = calloc((size_t)nb, 1), *b3 = calloc((size_t)nb, 1);
+                        for (i = 0; i < CGIO_MAX_DIMENSIONS; i++) one[i] = 1;
+                        if (b2 && b3) {
+                            int rb = cgio_read_block_data_type(w_cg, id, 1, count, dt, b2);
+                            int rs = cgio_read_data_type(w_cg, id, one, dims, one, dt, ndims, dims, one, dims, one, b3);
+                            if (rb) EC("cgio_read_block_data_type", rb);
+                            if (rs) EC("cgio_read_data_type", rs);
+                            if (!rc && !rb && memcmp(buf, b2, (size_t)nb)) out("e block_read_differs");
+                            if (!rc && !rs && memcmp(buf, b3, (size_t)nb)) out("e strided_read_differs");
+                        }
+                        free(b2); free(b3);
+                    }
                     free(buf);
                 }
             }
@@ -1184,7 +1227,8 @@ int main(int argc, char **argv)
     setvbuf(stdout, NULL, _IOLBF, 0);
     atexit(at_exit_note);
     if (argc < 3) { out("usage: c13_io mkcorpus OUTDIR | check FILE | cgio FILE | mll FILE"); g_normal_end = 1; return 2; }
-    if (!strcmp(argv[1], "mkcorpus")) rc = do_mkcorpus(argv[2]);
+    if (!strcmp(argv[1], "h5attr") && argc >= 6) rc = do_h5attr(argv[2], argv[3], argv[4], atoi(argv[5]));
+    else if (!strcmp(argv[1], "mkcorpus")) rc = do_mkcorpus(argv[2]);
     else if (!strcmp(argv[1], "check")) rc = do_check(argv[2]);
     else if (!strcmp(argv[1], "cgio")) rc = do_cgio(argv[2]);
     else if (!strcmp(argv[1], "mll")) rc = do_mll(argv[2]);
